@@ -27,7 +27,7 @@ UNIVERSE = [
   ('10.0.0.1', 2004, 'a'), ('10.0.0.1', 2104, 'b'), ('10.0.0.1', 2204, 'c'),
   ('10.0.0.2', 2004, 'a'), ('10.0.0.2', 2104, 'b'),
   ('10.0.0.3', 2004, 'a'), ('10.0.0.3', 2104, 'd'),
-  ('10.0.0.4', 2004, 'e'),
+  ('10.0.0.4', 2004, None),        # a destination written as host:port (no instance label)
 ]
 ROUTERS = ('consistent-hashing', 'fast-hashing', 'aggregated-consistent-hashing', 'fast-aggregated-hashing')
 
@@ -139,6 +139,22 @@ def run_cfg(arg):
         if v is not None and len(bad) < 3:
           bad.append((v[0] + ':after-readd', '%s (after removing and re-adding %r)' % (v[1], tuple(r)),
                       {'cfg': cfg, 'key': key, 'position': p, 'removed': list(r), 'readded': True}))
+      # swap: remove r and add another destination with NO lookup in between (same ring size, other members)
+      others = [d for d in UNIVERSE if d not in cfg['dests']]
+      if others:
+        x = others[(cfg['dests'].index(r)) % len(others)]
+        router.removeDestination(tuple(r))
+        router.addDestination(tuple(x))
+        swapped = dict(cfg, dests=[d for d in cfg['dests'] if d != r] + [x])
+        for p in bpts[::3]:
+          key = table[p]
+          v = check_one(swapped, router, key)
+          n += 1
+          if v is not None and len(bad) < 3:
+            bad.append((v[0] + ':after-swap', '%s (after replacing %r by %r without a lookup in between)' % (v[1], tuple(r), tuple(x)),
+                        {'cfg': cfg, 'key': key, 'position': p, 'removed': list(r), 'added': list(x)}))
+        router.removeDestination(tuple(x))
+        router.addDestination(tuple(r))
   return n, len(shapes), bad
 
 
@@ -215,7 +231,12 @@ def replay(path):
   cfg = rep['cfg']
   cfg['dests'] = [tuple(d) for d in cfg['dests']]
   router = make_router(cfg)
-  if rep.get('removed'):
+  if rep.get('added'):
+    list(router.getDestinations(rep['key']))
+    router.removeDestination(tuple(rep['removed']))
+    router.addDestination(tuple(rep['added']))
+    cfg = dict(cfg, dests=[d for d in cfg['dests'] if d != tuple(rep['removed'])] + [tuple(rep['added'])])
+  elif rep.get('removed'):
     router.removeDestination(tuple(rep['removed']))
     if rep.get('readded'):
       router.addDestination(tuple(rep['removed']))
